@@ -7,7 +7,7 @@
                     _unary_op_wrapper              -> `unop`
                     _binary_op_wrapper             -> `binop`
                     _da_prop_wrapper/_da_method_wrapper -> `liftMethod`
-                    __getitem__ (int)              -> `getItem`
+                    __getitem__ (int)              -> `getItem`; iteration (legacy protocol) -> `iterFrom`, `iterBlocks`
                     register_pytree_node, _unflatten -> `treeFlatten`, `treeUnflatten` (before d088c11: `treeUnflattenOld`)
     _wrappers.py    _num_blocks_in_args            -> `numBlocksInArgs`
                     _block_args_kwargs             -> `pick`, `blockArgsKwargs`
@@ -142,6 +142,18 @@ def getItem (self : List α) (k : Int) : Res α :=
   else match self[j.toNat]? with
     | some a => .ok a
     | none => .error .index
+
+/-- `iter(x)`: `BlockArray` defines `__getitem__` and `__len__` but no `__iter__`, so Python iterates through
+    the legacy sequence protocol — `x[0], x[1], …` until `IndexError` (`for x in self`, `zip(self, other)`,
+    `for blk in x` in `solver._ravel`).  `fuel` bounds the number of `__getitem__` calls. -/
+def iterFrom (self : List α) : Nat → Nat → List α
+  | _, 0 => []
+  | i, fuel + 1 =>
+    match getItem self (i : Int) with
+    | .ok a => a :: iterFrom self (i + 1) fuel
+    | .error _ => []
+
+def iterBlocks (self : List α) : List α := iterFrom self 0 (self.length + 1)
 
 /-- pytree registration: `lambda xs: (xs, None)` and `_unflatten` (d088c11): the constructor
     (conversion, dtype check) only when every leaf is an array; otherwise the leaves are stored as
